@@ -153,55 +153,101 @@ def _shells(U):
 
 
 def _real_bk(rng, n):
+    """the installed BKVectors.from_kpoints: the object's own attributes wk, bk_cart, bk_grid, neighbours, G"""
+    import itertools
     from wannierberri.w90files.bkvectors import BKVectors
-    fails, cases = [], 0
+    fails, cases, refused = [], 0, []
     a, c = 1.0, 1.37
-    lattices = {
+    I, ones = rnp.eye(3), rnp.ones((3, 3))
+    real_lattices = {
         "cubic": rnp.eye(3), "fcc": rnp.array([[0, 1, 1], [1, 0, 1], [1, 1, 0]]) * 0.5, "bcc": rnp.array([[-1, 1, 1], [1, -1, 1], [1, 1, -1]]) * 0.5,
         "tetragonal": rnp.diag([a, a, c]), "orthorhombic": rnp.diag([1.0, 1.21, 1.47]), "hexagonal": rnp.array([[1, 0, 0], [-0.5, rnp.sqrt(3) / 2, 0], [0, 0, 1.6]]),
         "rhombohedral": rnp.array([[1, 0.2, 0.2], [0.2, 1, 0.2], [0.2, 0.2, 1]]), "monoclinic": rnp.array([[1, 0, 0], [0, 1.2, 0], [0.3, 0, 1.4]]),
         "triclinic": rnp.array([[1, 0.1, 0.05], [0.2, 1.15, 0.1], [0.13, 0.21, 1.31]]),
     }
-    names = list(lattices) if n > 30 else ["cubic", "fcc", "hexagonal", "triclinic"]
+    jobs = []
+    names = list(real_lattices) if n > 30 else ["cubic", "fcc", "hexagonal", "triclinic"]
     for nm in names:
-        real = lattices[nm]
-        recip = 2 * rnp.pi * rnp.linalg.inv(real).T
-        for mp in ((2, 2, 2), (3, 3, 2), (4, 4, 4)) if n > 30 else ((2, 2, 2), (3, 3, 2)):
-            with contextlib.redirect_stdout(io.StringIO()):
-                try:
-                    wk, bk_cart, bk_grid = BKVectors.find_bk_vectors(recip, mp)
-                except Exception as e:
-                    if "wannierberri" in repr(e.__traceback__.tb_frame.f_code.co_filename):
-                        raise
-                    raise
-            cases += 1
-            bad = []
-            Mx = sum(w * rnp.outer(b, b) for w, b in zip(wk, bk_cart))
-            if rnp.linalg.norm(Mx - rnp.eye(3)) > 1e-5:
-                bad.append("completeness relation violated by %.2e" % rnp.linalg.norm(Mx - rnp.eye(3)))
-            grid_set = {tuple(int(x) for x in g) for g in bk_grid}
-            for g, w in zip(bk_grid, wk):
-                t = tuple(int(-x) for x in g)
-                if t not in grid_set:
-                    bad.append("-b missing for b=%s" % (g,))
+        recip = 2 * rnp.pi * rnp.linalg.inv(real_lattices[nm]).T
+        for mp in ((2, 2, 2), (3, 3, 2), (4, 4, 4), (2, 3, 5)) if n > 30 else ((2, 2, 2), (3, 3, 2)):
+            jobs.append((nm, recip, mp, {}))
+    # anisotropic mesh on non-orthogonal reciprocal lattices (bk_cart must use the mesh of ITS lattice direction)
+    jobs.append(("monoclinic-recip", rnp.array([[3.3296, 0, 0], [0, 4.6065, 0], [-2.7659, 0, 4.6475]]), (5, 5, 7), {}))
+    jobs.append(("triclinic-recip", rnp.array([[1.0, 0.2, 0.1], [0.15, 1.3, 0.05], [0.3, -0.2, 0.9]]), (2, 3, 4), {}))
+    # lattices slightly distorted from a higher symmetry: the first shells are almost, but not, complete
+    for eps in ((1e-4, 5e-4, 1e-3) if n > 30 else (5e-4,)):
+        jobs.append(("orthorhombic, c* tilted by %g" % eps, rnp.array([[1, 0, 0], [0, 1.2, 0], [eps, 0, 1.5]]), (3, 4, 5), {}))
+        jobs.append(("tetragonal, sheared by %g" % eps, rnp.diag([1, 1, 1.3]) @ (I + eps * (ones - I)), (4, 4, 3), {}))
+    # shortest mesh vectors reaching the edge of the search box: Gamma-only / slab meshes of non-reduced cells, minimal search box
+    jobs.append(("non-reduced cell, Gamma only", rnp.array([[1, 0, 2.4], [0, 1.1, 0], [0, 0, 1.2]]), (1, 1, 1), {}))
+    jobs.append(("sheared slab", rnp.array([[1, 0, 0], [0, 1, 0], [0.5, 0.25, 0.3]]), (4, 4, 1), {}))
+    jobs.append(("flat cell, search_supercell=1", rnp.diag([1.0, 1.0, 0.4]), (4, 4, 1), dict(search_supercell=1)))
+    jobs.append(("orthorhombic Gamma only, search_supercell=1", rnp.diag([1.0, 1.3, 0.7]), (1, 1, 1), dict(search_supercell=1)))
+    for nm, recip, mp, kw in jobs:
+        recip = rnp.array(recip, dtype=float)
+        mpa = rnp.array(mp)
+        kpt = rnp.array(list(itertools.product(*[rnp.arange(m) / m for m in mp])))
+        perm = list(range(len(kpt)))
+        rng.shuffle(perm)
+        kpt = kpt[perm] + rnp.array([[rng.choice([0, 0, 1, -1]) for _ in range(3)] for _ in perm])        # any order, any cell
+        with contextlib.redirect_stdout(io.StringIO()):
+            try:
+                bk = BKVectors.from_kpoints(recip_lattice=recip, mp_grid=mpa, kpoints_red=kpt, **kw)
+            except RuntimeError as e:
+                if "complete set of bk" in str(e) or "shell" in str(e):
+                    refused.append(nm + " %s" % (mp,))        # the documented refusal: no b-vectors are chosen, nothing to check
+                    continue
+                raise
+        cases += 1
+        bad = []
+        wk, bk_cart, bk_grid = rnp.array(bk.wk), rnp.array(bk.bk_cart), rnp.array(bk.bk_grid)
+        basis = recip / mpa[:, None]
+        if bk_cart.shape != bk_grid.shape or not rnp.allclose(bk_grid @ basis, bk_cart, atol=1e-9):
+            bad.append("bk_cart != bk_grid @ (recip_lattice / mp_grid per lattice direction)")
+        Mx = sum(w * rnp.outer(b, b) for w, b in zip(wk, bk_grid @ basis))
+        if rnp.linalg.norm(Mx - rnp.eye(3)) > 1e-5:
+            bad.append("completeness relation violated by %.2e" % rnp.linalg.norm(Mx - rnp.eye(3)))
+        wmap = {tuple(int(x) for x in g): w for g, w in zip(bk_grid, wk)}
+        if len(wmap) != len(wk):
+            bad.append("duplicate b-vectors")
+        for g, w in wmap.items():
+            t = tuple(-x for x in g)
+            if t not in wmap:
+                bad.append("-b missing for b=%s" % (g,))
+                break
+            if abs(wmap[t] - w) > 1e-9 * max(1, abs(w)):
+                bad.append("w(-b) != w(b)")
+                break
+        # whole shells: every mesh vector with the length of a chosen b is chosen with the same weight
+        box = rnp.array(list(itertools.product(*[range(-3 * m - 1, 3 * m + 2) for m in mp])))
+        length = rnp.linalg.norm(box @ basis, axis=1)
+        for g, w in wmap.items():
+            lb = rnp.linalg.norm(rnp.array(g) @ basis)
+            for other in box[abs(length - lb) < 1e-7]:
+                o = tuple(int(x) for x in other)
+                if o not in wmap:
+                    bad.append("shell of b=%s is not whole: %s missing" % (g, o))
                     break
-                j = [tuple(int(x) for x in gg) for gg in bk_grid].index(t)
-                if abs(wk[j] - w) > 1e-10:
-                    bad.append("w(-b) != w(b)")
+                if abs(wmap[o] - w) > 1e-9 * max(1, abs(w)):
+                    bad.append("different weights inside one shell")
                     break
-            basis = recip / rnp.array(mp)[:, None]
-            if not rnp.allclose(bk_grid @ basis, bk_cart, atol=1e-9):
-                bad.append("bk_cart != bk_grid @ basis")
-            # whole shells: every mesh vector with the length of a chosen b is chosen
-            lens = sorted(set(rnp.round(rnp.linalg.norm(bk_cart, axis=1), 6)))
-            allk = rnp.array([(i, j, k) for i in range(-4, 5) for j in range(-4, 5) for k in range(-4, 5)])
-            alll = rnp.round(rnp.linalg.norm(allk @ basis, axis=1), 6)
-            if sum(int((alll == L).sum()) for L in lens) != len(bk_cart):
-                bad.append("a shell is not complete")
-            if bad:
-                fails.append(dict(input=dict(lattice=nm, mp_grid=list(mp)), clause="completeness / -b closure / whole shells", failed=bad[:3]))
-    return dict(cases=cases, failures=fails, distinct=cases)
+            if bad and "shell" in bad[-1]:
+                break
+        # neighbours and G:  k + b = k_nb + G  exactly on the mesh
+        kint = rnp.rint(kpt * mpa[None, :]).astype(int)
+        for ik in range(len(kpt)):
+            for ib in range(len(wk)):
+                nb_, G_ = int(bk.neighbours[ik][ib]), rnp.array(bk.G[ik][ib])
+                if not rnp.array_equal(kint[ik] + bk_grid[ib], kint[nb_] + G_ * mpa):
+                    bad.append("k+b != k_neighbour + G at ik=%d ib=%d" % (ik, ib))
+                    break
+            if bad and bad[-1].startswith("k+b"):
+                break
+        if bad:
+            fails.append(dict(input=dict(lattice=nm, recip_lattice=recip.tolist(), mp_grid=list(mp), **kw), clause="completeness / -b closure / whole shells / neighbours", failed=bad[:3]))
+    return dict(cases=cases, failures=fails, distinct=cases, refused=refused)
 
 
-Unit("C22", "find_bk_vectors [real lattices]", concrete=_real_bk,
-     bounded_desc="find_bk_vectors on 4 (quick) / 9 (thorough) lattices covering the crystal systems, meshes 2x2x2, 3x3x2 (, 4x4x4): completeness <= 1e-5, -b closure with equal weights, whole shells, Cartesian = lattice vectors times basis")
+Unit("C22", "from_kpoints [real lattices]", concrete=_real_bk,
+     bounded_desc="installed BKVectors.from_kpoints (k-points shuffled and shifted by lattice vectors) on 4 (quick) / 9 (thorough) Bravais lattices x 2 (4) meshes, two non-orthogonal reciprocal lattices with anisotropic meshes, slightly distorted orthorhombic / tetragonal lattices, Gamma-only and slab meshes of non-reduced cells and search_supercell=1: "
+                  "completeness <= 1e-5, -b closure with equal weights, whole shells, bk_cart = bk_grid x basis, k+b = k_nb+G; a documented refusal ('could not find a complete set') counts as no result")
